@@ -9,7 +9,11 @@ MC = "model_checking"
 ACN_NOTE = ("Trusted: TLC/SANY, CommunityModules Json, the replay harness' projection of the implementation state "
             "(harness/acnsim_replay.py). Small scope: the model is exhaustive within the constants of "
             "spec/cfg/AcnSim_mc_*.cfg, behaviours beyond them are sampled with -simulate. Sessions do not overlap on a "
-            "station; menu pilots are accepted by all EVSE classes; ideal Battery where energies are compared to the spec.")
+            "station; menu pilots are accepted by the EVSE classes used (decided by MenuAcceptedBy in the spec); ideal Battery "
+            "where energies are compared to the spec. Spec-irrelevant choices varied per behaviour: station registration "
+            "order, EVSE classes, constraint sets, mapping order and value types, queue construction (constructor, "
+            "add_events, add_event, reused, restored from JSON), verbose, late scheduler attachment, JSON target (string, "
+            "file object, path).")
 
 CHECKS = {
     "C01": dict(
@@ -17,7 +21,8 @@ CHECKS = {
              "ConnectedExactly, DoneShape over all scenarios of the small configuration and Termination (liveness, weak "
              "fairness). Binding: TLC-generated behaviours are replayed through the real Simulator/EventQueue/"
              "ChargingNetwork/EVSE and compared at every scheduler invocation, every applied period and at the end; "
-             "traces of real schedulers are validated against the spec.",
+             "traces of real schedulers are validated against the spec. Long horizons (about 20 periods, 3 stations) are sampled; "
+             "Simulator.step() is modelled separately (AcnSimStep.tla) and replayed.",
         tech="TLA+ spec (AcnSim.tla) + TLC invariants/liveness + spec-to-code behaviour replay + code-to-spec trace validation",
         ref="5/C01", note=ACN_NOTE),
     "C02": dict(
@@ -44,8 +49,9 @@ CHECKS = {
         text="CrashTransparent (re-invocation on the identical durable state after an interruption) and DumpLoad = "
              "identity are checked by TLC with SchedRaise/Reject enabled in every period. Replay raises where the spec "
              "says, optionally round-trips through JSON, resumes, and compares every later step and the final state with "
-             "the spec (hence with the uninterrupted run), object sharing after load included; two-stage batteries are "
-             "compared run-vs-twin.",
+             "the spec (hence with the uninterrupted run), object sharing after load included; DumpLoad is also enabled before "
+             "the first run() and after completion; every scalar attribute of simulator, EVSEs, EVs and batteries is compared "
+             "across the round trip; two-stage batteries (continuous, tau 0.6, stepwise) are compared run-vs-twin.",
         tech="TLA+ spec (AcnSim.tla) + TLC invariants/action properties + spec-to-code replay with interruption-free twin",
         ref="5/C09", note=ACN_NOTE + " Naive datetime start."),
     "C10": dict(
@@ -62,7 +68,9 @@ CHECKS["C13"] = dict(
          "TLC checks AdvertisedAccepted, PilotIsValid and that refused calls change nothing, for every call sequence "
          "within the bound. Every sequence TLC enumerates (pilots at each boundary +-{0,.5,.9,1.1,2}e-3 A) is replayed "
          "through the real EVSE classes, the network cache and the Interface accessors, comparing outcome, pilot, "
-         "occupant, EV energy and battery charge after each call.",
+         "occupant, EV energy and battery charge after each call; finite level lists are handed over as list, tuple, ndarray, "
+         "generator, iterator or dict view, a companion station of the same class shares the network, and what is advertised "
+         "is re-read after a caller mutated the description it was handed.",
     tech="TLA+ spec (EVSE.tla) + TLC invariants/action properties + exhaustive spec-to-code replay",
     ref="5/C13", note="Trusted: TLC, replay harness. Probes never sit exactly on +-1e-3 A (undecidable in floats); "
                       "accepted negative pilots only on a vacant station.")
@@ -74,7 +82,9 @@ CHECKS["C06"] = dict(
          "CollinearAgrees and related theorems over the whole lattice and evaluates every case; each case is executed "
          "through ChargingNetwork.is_feasible, Interface.is_feasible (dict form, dropped/permuted stations) and "
          "algorithms.utils.infrastructure_constraints_feasible and must give the spec's verdict and magnitude. A "
-         "constraint-free network is driven through the Interface and the real schedulers.",
+         "constraint-free network is driven through the Interface and the real schedulers. Inside the simulator: "
+         "AcnSim.tla defines Warning(ConsAgg, m) (whether _update_schedules must warn about a submitted schedule, and the "
+         "worst constraint, column and excess it names); behaviours are replayed and the real warnings compared.",
     tech="TLA+ spec (Feasibility.tla) + TLC theorems over an exact lattice + one implementation test per TLC case",
     ref="5/C06", note="Trusted: TLC, Json module (the harness recomputes every row verdict with Fractions and aborts as "
                       "machinery failure on disagreement). Limits >= 0; verdicts compared on decisive cases only (exact "
@@ -99,7 +109,8 @@ CHECKS["C20"] = dict(
          "per page visited, next links followed exactly, parameters sent, invalid sites rejected before any request, "
          "laziness, and termination under fairness. DataClientTime.tla decides parse/format identity, same instant and "
          "local fields for four zones in exact integer arithmetic over a lattice around DST transitions and a "
-         "day-by-day calendar walk. Every behaviour and lattice case is executed against the real DataClient (fake "
+         "day-by-day calendar walk. DataClientTwo.tla: two generators of ONE client pulled in every order for every pair "
+         "of pagings (OwnPrefix, CompleteAtStop, OneRequestPerPage, BothFinish). Every behaviour and lattice case is executed against the real DataClient (fake "
          "transport) and acndata.utils.",
     tech="TLA+ specs (DataClient.tla, DataClientTime.tla) + TLC invariants/liveness + exhaustive spec-to-code replay",
     ref="5/C20", note="Trusted: TLC/SANY, Json, pytz as oracle for the four transcribed zones, the fake Eve-style "
@@ -127,7 +138,8 @@ CHECKS["C17"] = dict(
          "PriceIsLatestBreakpoint, WrapEquivalence, SameDaySameSchedule, PriceChangesAtBreakpoints; a second machine "
          "models get_tariffs / one simulation (VecAligned, CostIsSum, PeakIsMax). Every probe TLC visits is executed "
          "through TimeOfUseTariff.get_tariff/get_demand_charge/get_tariffs, Interface.get_prices/get_demand_charge "
-         "inside a real simulation and analysis.energy_cost/demand_charge.",
+         "inside a real simulation and analysis.energy_cost/demand_charge. Vector periods include 90, 720 (and 10080) "
+         "minutes; one long-lived tariff object per file answers most probes and every fifth probe uses a fresh object.",
     tech="TLA+ specs (Tariff.tla, Calendar.tla) + TLC invariants/action properties + one implementation test per TLC state",
     ref="5/C17", note="Trusted: TLC, Json module, Python datetime/pytz. Prices piecewise constant between probes "
                       "(every breakpoint +-1 s/60 s, 00:00:00, 23:59:59, seeded seconds); years 1970-2037 represented by "
@@ -141,12 +153,14 @@ CHECKS["C15"] = dict(
          "lattice. Every lattice case is converted by the real _convert_to_ev / _convert_ev_matrix / generate_events and "
          "must equal the spec's session. For the two-stage capacity fit, TLC judges every (cap, init) the real "
          "batt_cap_fn returns against an exact fixed-point enclosure of the two-stage law, and a real "
-         "Linear2StageBattery charged at full rate for the stay must deliver the request.",
+         "Linear2StageBattery charged at full rate for the stay must deliver the request. MustFit: the request "
+         "force_feasible caps a document at (exactly 32 A for the stay) is held in the linear stage by a menu battery "
+         "whenever it is at most 80 % of it, so the fit must answer there (this found the defect fixed by 9f1a084).",
     tech="TLA+ spec (EventGen.tla) + TLC invariants + spec-to-code case replay + code-to-spec validation of observed fits",
     ref="5/C15", note="Trusted: TLC/SANY, Json/SequencesExt, numpy, pytz (zone table cross-checked on every use). "
                       "Whole-second aware instants 1970-2038 at or after the start; valid sample rows; stochastic max_len "
                       "in hours (pinned by the repo tests); fit at 32 A, transition SoC 0.8; boundary-exact float cases "
-                      "are skipped as non-decisive.")
+                      "are skipped as non-decisive except where MustFit applies.")
 
 CHECKS["C16"] = dict(
     text="Sites.tla transcribes the three site designs (phase groups with line-to-line angles 30/-90/150, pods, "
@@ -166,7 +180,7 @@ CHECKS["C16"] = dict(
                       "site would go unnoticed).")
 
 CHECKS["C03"] = dict(
-    text="Battery.tla is one state machine (Charge(pilot, duration, noise draw), Reset) for the ideal, stepwise two-stage "
+    text="Battery.tla is one state machine (Charge(pilot, duration, noise draw), Reset, ResetTo(c), ResetRefused) for the ideal, stepwise two-stage "
          "and continuous two-stage laws in exact integer arithmetic (continuous law: rigorous rational enclosure with K "
          "Euler micro-steps). TLC proves RateNonNegative, RateAtMostPilot, PowerAtMostMax, ChargeWithinCapacity, "
          "ChargeNeverDecreases, DeliveredIsStored over every lattice battery, noise draw and call sequence within the "
@@ -181,7 +195,7 @@ CHECKS["C03"] = dict(
 CHECKS["C14"] = dict(
     text="On Battery.tla with noise off TLC checks the documented laws as theorems over every reachable state of charge: "
          "IdealIsMinOfThree, ZeroPilot, Monotone (in pilot and in T), Split (T = T/2 + T/2), DecliningStage, "
-         "TwoStageVsIdeal, EnclosureTight, ResetRestores, on a per-state probe table of the spec's answer to every "
+         "TwoStageVsIdeal, EnclosureTight, ResetRestores, ResetToSets, RefusedResetChangesNothing, on a per-state probe table of the spec's answer to every "
          "(pilot, duration) call. The real classes must reproduce the exact ideal and stepwise values, lie inside the "
          "rigorous enclosure of the continuous law, and satisfy the split / monotonicity / zero-pilot / reset identities "
          "directly at float precision.",
@@ -207,7 +221,8 @@ CHECKS["C18"] = dict(
          "simulator state (A_Energy, A_Peak, A_Phasor, A_PhaseSum, A_RightNames for every subset and order of requested "
          "ids, A_Nema, A_Proportion, A_Datetimes, A_Cost). Each completed behaviour is replayed step by step through the "
          "real Simulator on a network with heterogeneous voltages and three-phase constraint rows, then every real "
-         "analysis function is called and compared with the spec's value.",
+         "analysis function is called and compared with the spec's value (the order in which the two representations of "
+         "constraint currents are requested varies; the unbalance is asked for right after the other representation).",
     tech="TLA+ spec (Analysis.tla over AcnSim.tla) + TLC theorems + spec-to-code behaviour replay",
     ref="5/C18", note="Trusted: TLC, Json, the AcnSim replay harness. Angles in {30,-90,150}; coefficients multiples of 1/4; "
                       "rates multiples of 0.1 A (exact squared magnitudes); thresholds compared on decisive points only; "
@@ -217,7 +232,10 @@ SORTED_NOTE = ("Trusted: TLC, Json, an in-process recorder wrapping sorted_algor
                "the two search routines; Simulator._iteration is set directly when a lattice case is staged. EVSEs are "
                "continuous-from-zero or finite-rate; limits <= 100 A; angles {30,-90,150} or single phase; distinct "
                "priority keys; the estimator is a dict session_id -> bound (closed loop: the real SimpleRampdown); "
-               "undecidable float coincidences are counted non-decisive.")
+               "undecidable float coincidences are counted non-decisive. The minimum pilot of uninterrupted charging is stored "
+               "truncated to whole amperes by the code (integer min_rates array): modelled as it is (TruncA). A third of the "
+               "lattice cases run after the same algorithm object scheduled on a perturbed, then reconfigured, infrastructure "
+               "(history independence); a quarter call schedule() with caller-built SessionInfo objects.")
 CHECKS["C07"] = dict(
     text="SortedAlgo.tla models the sorting-based schedulers as a state machine (Preprocess, MinRate, Sort, ServeGreedy, "
          "RRStep, Uncontrolled) with exact feasibility (limb arithmetic, the 1e-5 A tolerance included). TLC checks "
